@@ -9,7 +9,7 @@
 (*   zfwds   [client, server], in the order requests entered a server's mailbox          *)
 (*   zans    [client, server], in the order answers entered a client's mailbox; server    *)
 (*           is the server that left label sendPage in that step (0 if there is none)     *)
-EXTENDS load_balancer
+EXTENDS load_balancer, Integers
 
 VARIABLES zreqs, zfwds, zans
 zhvars == <<vars, zreqs, zfwds, zans>>
